@@ -661,10 +661,20 @@ def check(run, db, tier):
     calls = [ast.unparse(n.func) for n in walk_no_nested(f.node) if isinstance(n, ast.Call)]
     rets = [n for n in walk_no_nested(f.node) if isinstance(n, ast.Return)]
     ok = any(c.endswith('fftshift') for c in calls) and not any(c.endswith('ifftshift') for c in calls) and any(c.endswith('fftfreq') for c in calls)
-    run.check(ok, 'C04.who', f.qual, 'fftshift(fftfreq)', 'shifted frequency axis is fftshift(fftfreq(n, dx)) (zero at n//2)',
-              'forward_ft_unit does not build its shifted axis as fftshift(fftfreq(...)): calls %s' % calls, f.loc())
+    # decided on values first (4, 5, 6 samples, shifted and not): the reading of the calls is then only a cross-check of how it is spelled
+    from .c04values import ft_unit_value_rules
+    n_ftu = run.group(ft_unit_value_rules, run, db)
+    if ok or not n_ftu:
+        run.check(ok, 'C04.who', f.qual, 'fftshift(fftfreq)', 'shifted frequency axis is fftshift(fftfreq(n, dx)) (zero at n//2)',
+                  'forward_ft_unit does not build its shifted axis as fftshift(fftfreq(...)): calls %s' % calls, f.loc())
+    else:
+        run.info('forward_ft_unit is not spelled fftshift(fftfreq(...)) (calls %s); its axes were decided on values (%d cases)' % (calls, n_ftu))
 
     # ---- Slices: the x slice is row centre_y, the y slice is column centre_x (both branches)
+    # decided on values first (small concrete maps, odd and even lengths, one- and two-sided); the reading of the subscripts below defers
+    # to it where it does not follow the way the slices are taken
+    from .c04values import slices_value_rules
+    n_slices = run.group(slices_value_rules, run, db)
     sci = db.cls('prysm._richdata.Slices')
     it, dom = mk(db, {})
     init = db.method(sci, '__init__')
@@ -726,6 +736,9 @@ def check(run, db, tier):
                     and fc[1][0][0] == 'from' and eq(dom, fc[1][0][1], wantstart) and fc[1][0][2] is None
                 detail = 'values taken at %s, coordinates at %s' % ([(sp[0],) + tuple(sh(dom, z) if z is not None else 'end' for z in sp[1:]) for sp in fv[1]],
                                                                      [(sp[0],) + tuple(sh(dom, z) if z is not None else 'end' for z in sp[1:]) for sp in fc[1]])
+            if not ok and n_slices and (fv is None or fc is None):
+                run.info('Slices.%s (twosided=%s): the chain of subscripts is not read (%s); decided on values (%d slices)' % (which, two, detail[:120], n_slices))
+                continue
             run.check(ok, 'C04.slices', fi.qual, '%s slice twosided=%s' % (which, two),
                       'the %s slice is taken through the origin sample (%s centre fixed%s)' % (which, 'row' if which == 'x' else 'column', '' if two else ', starting at the other centre'),
                       'Slices.%s (twosided=%s) does not pass through the origin sample: %s' % (which, two, detail), fi.loc())
